@@ -93,7 +93,27 @@ def check_keywords(ctx, rep, rule=RULE + '.a'):
                 elif nm == 'parse_symbol' and not c.args:
                     if 'epsilon' not in kws:
                         rep.violates(rule, build, c, "the builder reads 'epsilon' which is not a keyword of this kind")
-        # printer and builder agree on which keyword carries which field
+        # every word the parser of this kind reserves has a consumer in the builder of this kind: a reserved word nobody
+        # reads turns a transition line that starts with a state of that name into a silently swallowed declaration
+        if bcls:
+            consumed = set()
+            for c in ctx.prog.calls_in(build):
+                nm = ctx.callee_name(build, c)
+                if nm in ('get_symbol_set', 'get_state', 'get_symbol', 'parse_symbol'):
+                    if c.args and isinstance(c.args[0], ast.Constant):
+                        consumed.add(c.args[0].value)
+                    elif not c.args and nm == 'parse_symbol':
+                        r = ctx.resolve_call(build, c)
+                        d = r.target.defaults.get('key') if r is not None and r.kind == 'func' else None
+                        if isinstance(d, ast.Constant):
+                            consumed.add(d.value)
+            site = [c for c in ctx.prog.calls_in(parse) if ctx.callee_name(parse, c) == 'AutomatonParser'][0]
+            for kw in sorted(kws):
+                n += 1
+                if kw in consumed:
+                    rep.holds(rule, parse, "reserved word '{}'".format(kw), "the reserved word '{}' of parse_{} is consumed by {}Builder.build".format(kw, kind, kind.upper()), nontrivial=False)
+                else:
+                    rep.violates(rule, parse, site, "parse_{0} reserves the word '{1}' (keyword set {2}) but {3}Builder never reads it: a transition line of a {3} whose source state is called '{1}' is swallowed as a declaration, so a well-formed description is rejected or misread and print/parse does not round-trip".format(kind, kw, sorted(kws), kind.upper()))
     return n
 
 
